@@ -466,6 +466,12 @@ func runSpend(c *ev.Case, spec *vmdiff.Spec) {
 		layouts = append(layouts, lr)
 	}
 
+	for _, lr := range layouts {
+		if lr.run.Cut || ref.Cut {
+			c.Count("cut_after_max_steps", 1)
+			return
+		}
+	}
 	// report
 	any := false
 	var firstKey string
